@@ -426,7 +426,7 @@ impl<W: WorldSpec> Engine<W> {
         self.check_all_released(wid, "nested runtime-borrowed accesses");
     }
 
-    pub fn op_query(&mut self, site: u8, mac: QMacro, key: Option<Sel>, plan: &[VisitAct]) {
+    pub fn op_query(&mut self, site: u8, mac: QMacro, key: Option<Sel>, plan: &[VisitAct], dp: Option<u32>) {
         if !self.cur_alive() {
             return;
         }
@@ -455,6 +455,10 @@ impl<W: WorldSpec> Engine<W> {
         };
         let start_live: BTreeSet<Bits> = self.ms[wid].ents.iter().filter(|(_, r)| info.matches.contains(&r.arch)).map(|(b, _)| *b).collect();
         let wrapping = self.cfg.wrapping;
+        // F3 inside ecs_iter_destroy!: the loop drops the tuple returned by destroy itself. Only
+        // armed when no drop can happen in harness code running inside the closure.
+        let gecs_drops_only = mac == QMacro::IterDestroy && !plan.iter().any(|a| matches!(a.inner, Inner::OtherDestroy { .. }));
+        rt::arm(None, if gecs_drops_only { dp } else { None }, None, false);
         let (res, visits, created_other, pending, broke_at, calls_after_break, k, failed) = {
             let Engine { ws, ms, stats, .. } = self;
             let w = ws[wid].as_mut().unwrap();
@@ -487,8 +491,13 @@ impl<W: WorldSpec> Engine<W> {
             }
             (res, qs.visits, qs.created_other, qs.pending_destroy, qs.broke_at, qs.calls_after_break, qs.k, qs.failed)
         };
+        let drop_calls = rt::with(|r| r.drop_calls);
+        rt::disarm();
         rt::h(&[0x9E47, si as u64, mac as u64, k as u64]);
         self.yields.push((self.step, 0, k as u32));
+        if gecs_drops_only && drop_calls > 0 {
+            self.yields.push((self.step, 5, drop_calls));
+        }
         for b in created_other {
             self.add_ind(b, wid);
         }
@@ -563,6 +572,17 @@ impl<W: WorldSpec> Engine<W> {
                         QMacro::FindBorrow => "F1_closure_panic_find_borrow",
                     });
                     // writes and destroys of completed visits stand; nothing is pending
+                } else if c.injected == Some(Injected::Drop) {
+                    // the panic came from dropping the tuple of the entity being destroyed: the
+                    // destroy itself had completed
+                    self.stats.inc("F3_drop_panic_in_iter_destroy");
+                    match pending {
+                        Some(t) => {
+                            let ta = self.ms[wid].ents[&t].arch;
+                            self.settle_after_panic(wid, ta, t, "ecs_iter_destroy! (panic in Drop of the removed components)");
+                        }
+                        None => vio("C10", "unexpected-panic", format!("{} {:?}: a Drop panic surfaced with no destroy in flight", info.name, mac)),
+                    }
                 } else if is_overflow_panic(&c.msg) {
                     match pending {
                         Some(t) if !wrapping && (near_max(t as u32 as u64) || near_max(self.ms[wid].archs[self.ms[wid].ents[&t].arch].ver)) => {
